@@ -39,7 +39,7 @@ AdmitsOp(f, o) ==
 VClasses(f) ==
     IF f \in UidFields THEN { "zero", "small", "max31", "high", "unset", "minus1", "name_root" }
     ELSE IF f \in GidFields THEN { "zero", "small", "max31", "high", "unset", "minus1", "name_root" }
-    ELSE IF f \in StrFields THEN { "short", "long", "max", "special" }
+    ELSE IF f \in StrFields THEN { "short", "long", "max", "special", "utf8" }
     ELSE IF f = "saddr_fam" THEN { "two", "ten" }
     ELSE IF f \in NumFields THEN { "zero", "one", "dec", "hex", "neg", "max" }
     ELSE IF f = "exit" THEN { "zero", "pos", "neg", "errno_neg", "errno_pos", "min" }
